@@ -14,9 +14,9 @@ import (
 // C18: recording, fault-injecting wrapper around filesys.FileSystem.
 //
 // Every call made through the FileSystem interface is recorded as (op, path, ok).
-// Fallible operations (those returning an error) are numbered 0,1,2,…; when the number of a
-// fallible operation equals faultAt it fails WITHOUT touching the underlying file system.
-// Boolean operations (Exists, IsDir) cannot report failure and are recorded but never faulted.
+// EVERY call is numbered 0,1,2,… (its index in the trace); when the number of a call equals faultAt
+// it fails WITHOUT touching the underlying file system: a call that can return an error returns
+// one; Exists and IsDir, which cannot report failure, answer false (a failed stat reads as "no").
 
 type fsEvent struct {
 	Op   string `json:"op"`
@@ -26,7 +26,7 @@ type fsEvent struct {
 
 type errInjected struct{ n int }
 
-func (e errInjected) Error() string { return fmt.Sprintf("injected fault at fallible operation %d", e.n) }
+func (e errInjected) Error() string { return fmt.Sprintf("injected fault at file-system call %d", e.n) }
 
 type faultFS struct {
 	filesys.FileSystem // the wrapped file system; unlisted methods are forwarded unrecorded (none are used)
@@ -129,12 +129,20 @@ func (f *faultFS) Walk(path string, walkFn filepath.WalkFunc) error {
 }
 
 func (f *faultFS) Exists(path string) bool {
+	if err := f.fallible(); err != nil {
+		f.rec("Exists", path, false)
+		return false
+	}
 	b := f.FileSystem.Exists(path)
 	f.rec("Exists", path, b)
 	return b
 }
 
 func (f *faultFS) IsDir(path string) bool {
+	if err := f.fallible(); err != nil {
+		f.rec("IsDir", path, false)
+		return false
+	}
 	b := f.FileSystem.IsDir(path)
 	f.rec("IsDir", path, b)
 	return b
@@ -162,13 +170,16 @@ func (f *faultFS) Open(path string) (filesys.File, error) {
 
 // ---------- log.Fatalf interception ----------
 //
-// localizer calls log.Fatalf (= logger output, then os.Exit(1)). The standard logger's writer is
-// replaced by one that panics with fatalSentinel when it is called from log.Fatal*, i.e. before
-// os.Exit is reached; every other log line is dropped. The in-process runs classify that panic as
-// the outcome "Fatal". (The confirmed defect is additionally reproduced in a real subprocess on
-// the on-disk file system, where the process does exit.)
+// localizer calls log.Fatalf (= logger output, then os.Exit(1)).  The standard logger's writer is
+// replaced by one that, when it is called from log.Fatal*, records the message and ends the
+// GOROUTINE with runtime.Goexit — before os.Exit is reached.  Like os.Exit this reaches no
+// `recover()` (deferred functions run, but recover returns nil in them, so a deferred
+// recover-and-clean-up such as the one in localizer.Run does NOT fire, exactly as on a real exit);
+// every other log line is dropped.  runTrapped runs the localizer in its own goroutine and
+// classifies the outcome.  (The defect is additionally reproduced in a real subprocess on the
+// on-disk file system, where the process does exit.)
 
-type fatalSentinel struct{ msg string }
+var fatalMsg18 string
 
 type fatalTrap struct{}
 
@@ -179,13 +190,42 @@ func (fatalTrap) Write(p []byte) (int, error) {
 	for {
 		fr, more := frames.Next()
 		if fr.Function == "log.Fatalf" || fr.Function == "log.Fatal" || fr.Function == "log.Fatalln" {
-			panic(fatalSentinel{strings.TrimSpace(string(p))})
+			fatalMsg18 = strings.TrimSpace(string(p))
+			runtime.Goexit()
 		}
 		if !more {
 			break
 		}
 	}
 	return len(p), nil
+}
+
+// runTrapped runs f in a goroutine of its own: outcome class (kOk / kErr / kFatal / kPanic) + message.
+func runTrapped(f func() error) (cls, msg string) {
+	done := make(chan struct{})
+	fatalMsg18 = ""
+	finished := false
+	go func() {
+		defer close(done)
+		defer func() {
+			if rec := recover(); rec != nil {
+				cls, msg = kPanic, fmt.Sprint(rec)
+				finished = true
+			}
+		}()
+		if err := f(); err != nil {
+			cls, msg = kErr, err.Error()
+		} else {
+			cls = kOk
+		}
+		finished = true
+	}()
+	<-done
+	if !finished {
+		// the goroutine ended without returning and without panicking: Goexit from the trap
+		cls, msg = kFatal, fatalMsg18
+	}
+	return cls, msg
 }
 
 // ---------- snapshots of an in-memory file system ----------
